@@ -43,6 +43,12 @@ for item in job["items"]:
         r["loads"] = digest(d, e)
     except Exception as ex:
         r["loads"] = "RAISED " + type(ex).__name__ + ": " + str(ex)[:100]
+    if item.get("fragments"):
+        try:
+            cd, idx = kp.concat(item["fragments"])
+            r["concat"] = {"indexes": [list(p) for p in idx], "kern": kp.dumps(cd)}
+        except Exception as ex:
+            r["concat"] = "RAISED " + type(ex).__name__ + ": " + str(ex)[:100]
     if item.get("path"):
         try:
             d, e = kp.load(item["path"])
@@ -69,7 +75,7 @@ def _digest_inprocess(text, path):
     raise NotImplementedError
 
 
-def run_variants(ctx, texts, key='environment-dependent', with_files=True, variants=None, timeout=900):
+def run_variants(ctx, texts, key='environment-dependent', with_files=True, variants=None, timeout=900, fragments=None):
     """texts: list of str.  Spawns one reference child (the parent's own environment) and one child per variant; every variant must
     reproduce the reference digest of every text (imports from a string and, with_files, from a UTF-8 file)."""
     SCRATCH_DIR.mkdir(exist_ok=True)
@@ -78,6 +84,8 @@ def run_variants(ctx, texts, key='environment-dependent', with_files=True, varia
     items = []
     for i, t in enumerate(texts):
         it = {'text': t}
+        if fragments and i < len(fragments) and fragments[i]:
+            it['fragments'] = fragments[i]      # the same text cut into fragments: kp.concat in the child too
         if with_files:
             p = base / f't{i}.krn'
             with open(p, 'w', encoding='utf-8', newline='') as fh:
